@@ -1,5 +1,7 @@
 import NetaddrVerif.Model.Proto
-/-! Driver ops of property C09 (stub: filled in by the property's model). -/
+/-! Driver ops of property C09.  The property's ops `partition N N` and `exclude N N` run the
+    shared `cidrPartition` / `cidrExclude` of Model/Cidr.lean and live in Driver/Cidr.lean
+    (shared, used by C05/C09/C13/C20); nothing is added here. -/
 namespace NV.Driver.C09
 open NV NV.Proto
 
